@@ -104,7 +104,48 @@ def check_property(prop: str, tier: str, jobs: int, seed: int, only: list[str] |
     with cf.ProcessPoolExecutor(max_workers=max(1, min(jobs, len(hs))), mp_context=ctx) as ex:
         for r in ex.map(_run_one, [(h.id, tier, known_active, seed) for h in hs]):
             results.append(r)
+    global _SENSITIVITY
+    _SENSITIVITY = None
+    if tier == 'thorough' and not only and os.path.realpath(os.environ.get('PYVC_REPO', '/repo')) == os.path.realpath('/repo') \
+            and not os.environ.get('PYVC_NO_SENSITIVITY'):
+        _SENSITIVITY = sensitivity(prop, jobs)
     return report(prop, tier, seed, results, known, time.time() - t0)
+
+
+_SENSITIVITY = None
+
+
+def sensitivity(prop: str, jobs: int) -> dict:
+    """Thorough tier, informational (never changes the verdict or the exit code): does this check still see the known
+    property-breaking changes?  Every seeded change of the property (seeded/<prop>-<n>/patch.diff: independently written
+    changes that break the property while the test suite stays green) is applied to a scratch copy of /repo's current working
+    tree and the property's quick check is run on it; each must end in VIOLATION.  A patch that no longer applies is skipped."""
+    import glob, shutil, subprocess, tempfile
+    out = {}
+    for d in sorted(glob.glob(os.path.join(VERIF, 'seeded', f'{prop}-*'))):
+        sid = os.path.basename(d)
+        S = tempfile.mkdtemp(prefix='sens.', dir='/var/tmp')
+        try:
+            shutil.copytree(os.path.join(os.environ.get('PYVC_REPO', '/repo'), 'kopf'), os.path.join(S, 'kopf'))
+            ap = subprocess.run(['patch', '-p1', '-s', '-d', S, '-i', os.path.join(d, 'patch.diff')], capture_output=True, text=True)
+            if ap.returncode != 0:
+                out[sid] = dict(status='skipped', why='patch does not apply to the current tree')
+                continue
+            p = subprocess.run([sys.executable, '-m', 'pyvc.cli', prop, '--tier', 'quick', '--repo', S, '--jobs', str(jobs)],
+                               capture_output=True, text=True, cwd=VERIF, timeout=3600,
+                               env={**os.environ, 'PYTHONHASHSEED': '0', 'VERIF_TIER': 'quick'})
+            caught = sorted({l.split('replay=')[1].split()[0].rsplit('/', 1)[-1].replace('.json', '')
+                             for l in p.stdout.splitlines() if l.startswith('VIOLATION') and 'replay=' in l})
+            out[sid] = dict(status='caught' if (p.returncode == 1 and caught) else 'NOT-CAUGHT', exit=p.returncode, obligations=caught[:8])
+        except Exception as e:     # informational stage: never let it break the check
+            out[sid] = dict(status='skipped', why=f'{type(e).__name__}: {e}')
+        finally:
+            shutil.rmtree(S, ignore_errors=True)
+    lost = [k for k, v in out.items() if v['status'] == 'NOT-CAUGHT']
+    print(f"sensitivity: {sum(1 for v in out.values() if v['status'] == 'caught')} of {len(out)} seeded changes of {prop} detected"
+          + (f"; NOT detected: {' '.join(lost)}" if lost else '')
+          + (f"; skipped: {' '.join(k for k, v in out.items() if v['status'] == 'skipped')}" if any(v['status'] == 'skipped' for v in out.values()) else ''))
+    return out
 
 
 def report(prop, tier, seed, results, known, wall) -> int:
@@ -295,6 +336,8 @@ def write_evidence(prop, tier, seed, results, crashes, problems, n_ob, n_proved,
                           obligations=sum(1 for o in r['obligations'] if not o['canary']), extra=r.get('extra', {}))
                      for r in results],
     )
+    if _SENSITIVITY is not None:
+        coverage['sensitivity_to_seeded_changes'] = _SENSITIVITY
     if bounded_parts:
         ev = sum(r['extra'].get('evaluations', 0) for r in bounded_parts)
         dn = sum(r['extra'].get('distinct_nontrivial', 0) for r in bounded_parts)
